@@ -174,6 +174,8 @@ pub struct ArtExclusions {
     pub no_persisted: bool,
     /// C25: only the advanced / everything tiers, more declarations, refetchable selections weighted up
     pub refetch_heavy: bool,
+    /// see `gen_config`
+    pub exclude_negative_ints: bool,
     /// (finding signature, does the un-excluded project contain the excluded construct?)
     pub excluded_signatures: Vec<(&'static str, fn(&Project) -> bool)>,
 }
@@ -188,7 +190,36 @@ pub fn gen_config(spec: &CaseSpec, ex: &ArtExclusions) -> (&'static str, GenConf
         cfg.ref_weight = 2;
         cfg.max_decls = 9;
     }
+    // recorded finding `illegal-name:negative-int` (a response alias with `-` in it: the operation
+    // text does not parse, nor does raw_response_type.ts): excluded by construction in three
+    // quarters of the cases so that the search continues behind it, kept in the rest so that every
+    // run re-observes it
+    if ex.exclude_negative_ints && (spec.variant as usize / 64) % 4 != 0 {
+        cfg.negative_ints = false;
+    }
     (tier, cfg)
+}
+
+fn val_has_negative_int(v: &gen_project::Val) -> bool {
+    match v {
+        gen_project::Val::Int(i) => *i < 0,
+        gen_project::Val::Obj(f) => f.iter().any(|(_, v)| val_has_negative_int(v)),
+        _ => false,
+    }
+}
+
+fn sel_has_negative_int(s: &gen_project::Sel) -> bool {
+    s.args.iter().any(|(_, v)| val_has_negative_int(v)) || s.children.as_ref().map(|c| c.iter().any(sel_has_negative_int)).unwrap_or(false)
+}
+
+/// Does a selection of the project pass a negative integer literal?
+pub fn has_negative_int(p: &Project) -> bool {
+    p.decls.iter().any(|d| d.selections.iter().any(sel_has_negative_int))
+}
+
+/// The exclusions every artifact check applies for the recorded finding `illegal-name:negative-int`.
+pub fn negative_int_exclusion() -> ArtExclusions {
+    ArtExclusions { exclude_negative_ints: true, excluded_signatures: vec![("illegal-name:negative-int", has_negative_int)], ..Default::default() }
 }
 
 pub fn gen_case(spec: &CaseSpec, ex: &ArtExclusions) -> GenCase {
@@ -207,8 +238,13 @@ pub fn count_excluded(report: &Report, spec: &CaseSpec, ex: &ArtExclusions) {
     if ex.excluded_signatures.is_empty() {
         return;
     }
-    let none = ArtExclusions::default();
+    let (_, cfg_excluded) = gen_config(spec, ex);
+    let none = ArtExclusions { refetch_heavy: ex.refetch_heavy, ..Default::default() };
     let (_, cfg) = gen_config(spec, &none);
+    if cfg_excluded.negative_ints == cfg.negative_ints {
+        // nothing was switched off for this case
+        return;
+    }
     let p = build_project(spec.tape.clone(), &cfg);
     for (sig, pred) in &ex.excluded_signatures {
         if pred(&p) {
